@@ -246,7 +246,21 @@ func cacheMain(s *simrt.Sim, info *harness.RunInfo) {
 					cc = append(cc, "no-store")
 				}
 				if len(cc) > 0 {
-					req.Headers = append(req.Headers, [2]string{"Cache-Control", strings.Join(cc, ", ")})
+					// the directive among others, and with the optional whitespace that list syntax
+					// allows around the commas (RFC 9110 5.6.1); spelling stays lower case
+					switch s.Draw(5) {
+					case 1:
+						cc = append(cc, "max-age=0")
+					case 2:
+						cc = append([]string{"max-age=0"}, cc...)
+					case 3:
+						cc = append(cc, "no-transform")
+					}
+					sep := simrt.PickS(s, ", ", ",", " , ", "\t, ", " ,")
+					if len(cc) > 1 && sep != ", " {
+						s.Count("probe_directive_list_with_unusual_whitespace")
+					}
+					req.Headers = append(req.Headers, [2]string{"Cache-Control", strings.Join(cc, sep)})
 				}
 				if op.invalidate {
 					req.Headers = append(req.Headers, [2]string{"X-Invalidate", "1"})
